@@ -2,6 +2,8 @@
 P = {'id': 'C17',
  'level': 'proof',
  'theorems': ['spec_size_le_cap',
+              'lru_refines',
+              'lru_size_le_cap',
               'read_correct',
               'page_cache_history_correct',
               'cached_get_is_inner_get'],
